@@ -242,7 +242,7 @@ Proof.
   apply andb_true_iff in H1 as [Hc H1]. destruct c; cbn in Hc; try discriminate; cbn; apply IH; auto.
 Qed.
 Lemma g_code_with_refresh n now cfg c g : g_code (with_refresh n now cfg c g) = g_code g.
-Proof. Local Transparent with_refresh. unfold with_refresh. destruct (should_issue_refresh _ _ _); reflexivity. Qed.
+Proof. Local Transparent with_refresh. unfold with_refresh. destruct (should_issue_refresh _ _ _ _); reflexivity. Qed.
 Local Opaque with_refresh.
 Lemma code_grant_code w n now r : wp anyR (code_grant w n now r) Qcode.
 Proof.
